@@ -267,6 +267,41 @@ impl Prop for C14 {
                 }
             }
         }
+        // a producers section in which walrus appears under fields OTHER than processed-by (legal; those entries are
+        // somebody else's data and must survive, and walrus must still be recorded exactly once under processed-by)
+        if rng.chance(1, 12) {
+            if let Some(secs) = wasmsplit::split(&picked.bytes) {
+                let mut b: Vec<u8> = picked.bytes[..8].to_vec();
+                for s in &secs {
+                    let is_producers = s.id == 0 && wasmsplit::custom_view(&picked.bytes, s).map(|v| v.name == b"producers").unwrap_or(false);
+                    if !is_producers {
+                        b.extend_from_slice(&picked.bytes[s.range.clone()]);
+                    }
+                }
+                let mut ps = wasm_encoder::ProducersSection::new();
+                let mut lang = wasm_encoder::ProducersField::new();
+                lang.value("walrus", "");
+                lang.value("Rust", "1.70.0");
+                ps.field("language", &lang);
+                let mut sdk = wasm_encoder::ProducersField::new();
+                sdk.value("walrus", "9.9.9");
+                ps.field("sdk", &sdk);
+                if rng.bool() {
+                    let mut pb = wasm_encoder::ProducersField::new();
+                    pb.value("clang", "15.0.0");
+                    if rng.bool() {
+                        pb.value("walrus", "0.19.0");
+                    }
+                    ps.field("processed-by", &pb);
+                }
+                let mut m = wasm_encoder::Module::new();
+                m.section(&ps);
+                b.extend_from_slice(&m.finish()[8..]);
+                if crate::validator::validate(&b, false).is_ok() == crate::validator::validate(&picked.bytes, false).is_ok() {
+                    picked = inputs::Picked { iref: inputs::input_ref(&format!("{}+producers-walrus-elsewhere", picked.iref.source.chars().take(160).collect::<String>()), &b), bytes: b, recipe: None };
+                }
+            }
+        }
         // raw .debug_* sections (arbitrary payloads): they must never leak into the output while DWARF generation is off
         let mut debug_spliced = false;
         if rng.chance(1, 4) {
@@ -394,6 +429,29 @@ impl Prop for C14 {
             let in_debug = in_customs.iter().any(|(x, _)| x.starts_with(b".debug"));
             out.hit(&format!("dwarf_{}_input_{}", if v.dwarf { "on" } else { "off" }, if in_debug { "has_debug" } else { "no_debug" }));
 
+            // M5: with name generation on, the names the INPUT carries are kept where the index of the named item
+            // cannot have moved: the module name (both directions), and -- walrus keeps tables, memories, globals,
+            // element and data segments in input order -- no name of those namespaces is invented or changed
+            // (synthetic names off).  Inputs whose name section a storage fault touched are out of scope.
+            if v.names && h == 0 && case.faults.is_empty() {
+                if let (Some(n_in), Some(n_out)) = (names_of(&cur), names_of(&a)) {
+                    out.hit("checked_input_names_kept");
+                    let mod_in = n_in.get(&(0, 0, 0)).filter(|s| !s.is_empty());
+                    let mod_out = n_out.get(&(0, 0, 0)).filter(|s| !s.is_empty());
+                    if mod_in != mod_out {
+                        out.failure = fail("input_names_kept", format!("hop {}: the input's module name is {:?}, the output's is {:?}", h, mod_in, mod_out));
+                        return out;
+                    }
+                    if !v.synthetic {
+                        for (k, name) in n_out.iter().filter(|(k, _)| (5..=9).contains(&k.0)) {
+                            if n_in.get(k) != Some(name) {
+                                out.failure = fail("input_names_kept", format!("hop {}: the output names (namespace {}, index {}) `{}`; the input has {:?} there", h, k.0, k.1, name, n_in.get(k)));
+                                return out;
+                            }
+                        }
+                    }
+                }
+            }
             // M4: the switches that document no effect on the output (strict validation, keeping the code-offset map
             // for extension code, the instruction-location callback, and -- for a module accepted either way -- the
             // stable-features gate) leave the emitted bytes alone.  (Not with DWARF generation on, which consumes the
